@@ -1,5 +1,6 @@
 import SkimModel.Model.LinePrinter
 import SkimModel.Generated.PrinterFns
+import SkimModel.Lemmas.FnTactics
 /-!
 `LinePrinter::reset`, the branch structure of `print_char_raw` and the tab rule of `print_char` as TRANSLATED from src/util.rs
 (`Generated/PrinterFns.lean`, rewritten from the source on every run) are, for all inputs, what the C11 model does.
@@ -13,7 +14,7 @@ theorem printer_reset_is_model (p : LP) (c : Int) (sc st sp : Nat) :
       (((LP.reset p).cur : Int), (LP.reset p).scol, (LP.reset p).start, (LP.reset p).stop) := by
   unfold PrinterFns.reset LP.reset
   try simp only [Int.ofNat_eq_natCast, Int.ofNat_zero]
-  all_goals first | rfl | (simp only [Prod.mk.injEq]; omega)
+  all_goals fn_eq
 
 /-- which branch `print_char_raw` takes for a character of width `w`, how many dots it prints, the new `current_pos`
     (0 = hidden, 1 = dots, 2 = the character itself) — the model's side, written out by hand -/
@@ -50,13 +51,12 @@ theorem print_char_raw_is_model (p : LP) (w : Nat) :
     PrinterFns.printCharRaw p.start p.stop p.textWidth (p.cur : Int) w = modelBranch p w := by
   unfold PrinterFns.printCharRaw modelBranch
   try simp only [Int.ofNat_eq_natCast, Int.toNat_natCast]
-  all_goals ((repeat' split) <;>
-    first | rfl | (simp only [Prod.mk.injEq]; omega) | (dsimp only; simp only [Prod.mk.injEq]; omega) | omega)
+  all_goals fn_eq
 
 theorem tab_rest_is_model (p : LP) :
     PrinterFns.tabRest p.tabstop (p.cur : Int) = p.tabstop - p.cur % p.tabstop := by
   unfold PrinterFns.tabRest
   try simp only [Int.toNat_natCast]
-  all_goals ((repeat' split) <;> first | rfl | omega)
+  all_goals fn_eq
 
 end SkimModel.Draw
